@@ -10,6 +10,7 @@ import common
 import e1
 import e2
 import e2_c06
+import e2_c12
 from common import BUILD, Machinery
 
 
@@ -208,6 +209,8 @@ PROPS["C18"] = _e1({
 })
 
 PROPS["C06"] = lambda prop, tier, seed, t0: e2_c06.run(prop, tier, seed, t0)
+
+PROPS["C12"] = lambda prop, tier, seed, t0: e2_c12.run(prop, tier, seed, t0)
 
 
 def setup():
